@@ -32,6 +32,12 @@ pub enum Op {
     Format(usize, i64),
     Utc(i64),
     Construct(u64),
+    /// `TimeZone::local()`: the default settings, the real file system (/etc/localtime)
+    Local,
+    /// `TimeZone::from_posix_tz(value)`: the default settings, the real zoneinfo directories
+    DefaultPosix(usize),
+    /// the clock readers: `UtcDateTime::now`, `DateTime::now`, `TimeZone::find_current_local_time_type`
+    Now(usize),
 }
 
 pub struct Shared {
@@ -161,6 +167,40 @@ pub fn execute(s: &Shared, ops: &[Op], yield_seed: Option<u64>) -> (u64, u64) {
                 Ok(d) => h = h.i(d.year() as i64).i(d.year_day() as i64).i(d.week_day() as i64).b(d.to_string().as_bytes()),
                 Err(_) => h = h.i(7000),
             },
+            Op::Local => match TimeZone::local() {
+                Ok(z) => {
+                    h = h.i(z.as_ref().transitions().len() as i64).i(z.as_ref().local_time_types().len() as i64);
+                    if let Ok(t) = z.find_local_time_type(1_700_000_000) {
+                        h = h.i(t.ut_offset() as i64).b(t.time_zone_designation().as_bytes());
+                    }
+                }
+                Err(e) => h = h.i(facade::top_err(&e) as i64 + 9000),
+            },
+            Op::DefaultPosix(k) => match TimeZone::from_posix_tz(&s.strings[*k % s.strings.len()]) {
+                Ok(z) => {
+                    h = h.i(z.as_ref().transitions().len() as i64).i(z.as_ref().local_time_types().len() as i64);
+                    if let Ok(t) = z.find_local_time_type(1_700_000_000) {
+                        h = h.i(t.ut_offset() as i64).b(t.time_zone_designation().as_bytes());
+                    }
+                }
+                Err(e) => h = h.i(facade::top_err(&e) as i64 + 10_000),
+            },
+            Op::Now(k) => {
+                // the value depends on the clock: only its plausibility enters the digest
+                let a = UtcDateTime::now().map(|d| d.year() >= 2024).unwrap_or(false);
+                let b = tz::DateTime::now(zone_ref(s, *k)).map(|d| d.unix_time() > 1_700_000_000).unwrap_or(false);
+                let c = match s.zones[*k % s.zones.len()].find_current_local_time_type() {
+                    Ok(_) => 1,
+                    Err(tz::TzError::NoAvailableLocalTimeType) => 2,
+                    Err(_) => 3,
+                };
+                let c2 = match s.zones[*k % s.zones.len()].find_local_time_type(1_759_000_000) {
+                    Ok(_) => 1,
+                    Err(tz::TzError::NoAvailableLocalTimeType) => 2,
+                    Err(_) => 3,
+                };
+                h = h.i(a as i64).i(b as i64 | if tz::DateTime::now(zone_ref(s, *k)).is_ok() { 2 } else { 0 }).i((c == c2) as i64);
+            }
             Op::Construct(seed) => {
                 let mut r = Rng::new(*seed);
                 let mut c = ZoneCfg::search();
@@ -190,7 +230,10 @@ fn gen_ops(rng: &mut Rng, n: usize, nzones: usize) -> Vec<Op> {
                 1 => rng.range(0, 2_000_000_000),
                 _ => rng.range(-10_000_000_000, 10_000_000_000),
             };
-            match rng.below(16) {
+            match rng.below(19) {
+                16 => Op::Local,
+                17 => Op::DefaultPosix(rng.below(1000) as usize),
+                18 => Op::Now(k),
                 0 => Op::ParseFile(rng.below(1000) as usize),
                 1 => Op::ParseString(rng.below(1000) as usize),
                 2 | 3 | 4 | 5 => Op::Lookup(k, t),
@@ -228,10 +271,10 @@ fn mark(begin: bool) {
 
 pub fn run(ctx: &Ctx) -> Report {
     let mut rep = Report::new("C15");
-    rep.rule = "cases = (operation sequence, thread count, schedule seed): sequences mixing parse (file and TZ string), construct, lookup, from_timespec, find, find_n, format on shared zones (Arc<TimeZone> of vendored files and generated zones, a leaked &'static zone, the const UTC zone) and private values; each sequence's digest when run by one of N threads (N in 2, 4, 8, 16; start barrier; random yields / spins between calls) must equal its digest when run alone. \
+    rep.rule = "cases = (operation sequence, thread count, schedule seed): sequences mixing parse (file and TZ string; injected reader and the default settings on the real file system: TimeZone::local, TimeZone::from_posix_tz), the clock readers (now, find_current_local_time_type), construct, lookup, from_timespec, find, find_n, format on shared zones (Arc<TimeZone> of vendored files and generated zones, a leaked &'static zone, the const UTC zone) and private values; each sequence's digest when run by one of N threads (N in 2, 4, 8, 16; start barrier; random yields / spins between calls) must equal its digest when run alone. \
                 distinct_nontrivial = distinct (sequence, thread count, round) executions whose sequence touches a shared zone."
         .into();
-    rep.required_classes = vec!["threads_2", "threads_4", "threads_8", "threads_16", "shared_zone_ops", "private_value_ops", "parse_ops", "reader_saw_absolute_paths_only"];
+    rep.required_classes = vec!["threads_2", "threads_4", "threads_8", "threads_16", "shared_zone_ops", "private_value_ops", "parse_ops", "reader_saw_absolute_paths_only", "default_settings_ops_(real_file_system)", "clock_ops"];
     let (_paths, blobs) = match load_corpus(&ctx.corpus) {
         Ok(x) => x,
         Err(e) => {
@@ -342,6 +385,8 @@ pub fn run(ctx: &Ctx) -> Report {
                     match op {
                         Op::Lookup(..) | Op::FromTimespec(..) | Op::Find(..) | Op::FindN(..) | Op::Format(..) => l.class("shared_zone_ops"),
                         Op::ParseFile(_) | Op::ParseString(_) => l.class("parse_ops"),
+                        Op::Local | Op::DefaultPosix(_) => l.class("default_settings_ops_(real_file_system)"),
+                        Op::Now(_) => l.class("clock_ops"),
                         _ => l.class("private_value_ops"),
                     }
                 }
